@@ -114,7 +114,7 @@ pub fn gen(rng: &mut Rng, _tier: Tier) -> Scn {
 }
 
 /// One receiver run with the given clock offset; returns (complete exact, complete wrong, failed, writers) and the writer trace.
-fn receive_with_offset(scn: &Scn, ctx: &Ctx, sess: &Session, offset_s: i64, t_f: u64, lost: Option<usize>) -> ((usize, usize, usize), Vec<String>) {
+fn receive_with_offset(scn: &Scn, ctx: &Ctx, sess: &Session, offset_s: i64, t_f: u64, lost: Option<(usize, usize)>) -> ((usize, usize, usize), Vec<String>) {
     let mut recv = RecvSpec::basic();
     recv.expiry_check = scn.check;
     recv.object_timeout_ms = Some(1_000_000_000);
@@ -130,13 +130,13 @@ fn receive_with_offset(scn: &Scn, ctx: &Ctx, sess: &Session, offset_s: i64, t_f:
         .trace
         .pkts
         .iter()
-        .filter(|p| Some(p.idx) != lost && !(p.dec.toi == 0 && p.t_us + scn.fdt_delay_us > t_f))
+        .filter(|p| Some(p.idx) != lost.map(|l| l.0) && !(p.dec.toi == 0 && (p.t_us + scn.fdt_delay_us > t_f || lost.map(|l| p.idx > l.1).unwrap_or(false))))
         .map(|p| if p.dec.toi == 0 { (p.t_us + scn.fdt_delay_us, false, p) } else { (t_o, true, p) })
         .collect();
     dl.sort_by_key(|x| (x.0, x.1, x.2.idx));
     let second_phase = t_f.max(t_o);
     // the FDT packet that completes the instance (spread variant): the last FDT packet delivered
-    let completing = if lost.is_some() && scn.completing_packet_unstamped && scn.sct { dl.iter().filter(|x| x.2.dec.toi == 0).map(|x| x.2.idx).max() } else { None };
+    let completing = if scn.completing_packet_unstamped && scn.sct { lost.map(|l| l.1) } else { None };
     for (t, _, p) in dl {
         let jump = if scn.jump_s != 0 && t >= second_phase && t_f != t_o { scn.jump_s } else { 0 };
         rr.offset_us = (offset_s + jump) * 1_000_000;
@@ -330,7 +330,7 @@ pub fn run(scn: &Scn, ctx: &Ctx, scratch: &Path) {
         };
         let (ls, le) = (sess.trace.pkts[lost_idx].dec.sbn, sess.trace.pkts[lost_idx].dec.esi);
         match sess.trace.pkts.iter().find(|p| p.idx > first.last && p.dec.toi == 0 && p.dec.fdt.map(|f| f.1) == Some(first.instance_id) && p.dec.sbn == ls && p.dec.esi == le) {
-            Some(p) => (p.t_us, Some(lost_idx)),
+            Some(p) => (p.t_us, Some((lost_idx, p.idx))),
             None => {
                 ctx.borrow_mut().note("skip:fdt-not-repeated-in-the-recording");
                 return;
